@@ -52,7 +52,7 @@ def main():
         rep = os.path.join(root, 'report')
         os.makedirs(rep, exist_ok=True)
         js = os.path.join(rep, pid + '.json')
-        cmd = 'gcovr -r %s --object-directory %s %s --exclude-throw-branches --exclude-unreachable-branches --json %s -j 8 %s 2>&1 | grep -v "^(WARNING)" | tail -5' % (
+        cmd = 'gcovr -r %s --object-directory %s %s --exclude-throw-branches --exclude-unreachable-branches --json %s %s 2>&1 | grep -v "^(WARNING)" | tail -5' % (
             build.REPO, root, filt, js, root)
         subprocess.run(cmd, shell=True)
         data = json.load(open(js))
